@@ -224,7 +224,7 @@ func c16ChannelsPrefixed(c *engine.Ctx, li *engine.LockInfo, rid string) {
 	}
 	sort.Strings(inventory)
 	c.Note("channel close inventory: %s", strings.Join(inventory, " | "))
-	c.Floor(len(byField), 20)
+	c.Floor(len(byField), 10)
 
 	// closed channel reuse: the field is closed in a method that is not paired with a reset, while another function
 	// creates the channel only when the field is nil (so a closed, non-nil channel is reused)
@@ -381,7 +381,7 @@ func c16ChannelsPrefixed(c *engine.Ctx, li *engine.LockInfo, rid string) {
 			}
 		})
 	}
-	c.Floor(ns, 10)
+	c.Floor(ns, 5)
 
 	// reassigned channel fields
 	c.Rule(rid+"d", "a channel field that is replaced (set to nil or re-made) after construction, under a mutex, is not re-read without that mutex by the goroutine that sends on it: the sender either holds the mutex or works on the channel value it was started with (a sender that re-reads the field can find nil and block forever, holding the connection it was about to hand over)")
